@@ -53,8 +53,9 @@ Inductive outcome (T : Type) : Type :=
 | ErrArg            (* ValueError: tol/xtol <= 0 or maxiter < 1 (brent_max: bad interval) *)
 | ErrSign           (* ValueError: f(a) and f(b) must have different signs *)
 | ErrNoConv         (* RuntimeError('Failed to converge') when disp *)
+| ErrZeroDiv        (* ZeroDivisionError: Numba's default error model raises on a float division by 0.0 *)
 | Res (root : T) (funcalls iterations : Z) (converged : bool).
-Arguments ErrArg {T}. Arguments ErrSign {T}. Arguments ErrNoConv {T}. Arguments Res {T}.
+Arguments ErrArg {T}. Arguments ErrSign {T}. Arguments ErrNoConv {T}. Arguments ErrZeroDiv {T}. Arguments Res {T}.
 
 Section RootFinding.
 Context {T : Type} {NX : NumX T}.
@@ -70,6 +71,12 @@ Definition nsign (x : T) : T :=
 Definition finish (disp : bool) (r : T * Z * Z * bool) : outcome T :=
   let '(root, fc, it, conv) := r in
   if disp && negb conv then ErrNoConv else Res root fc it conv.
+Definition finish_opt (disp : bool) (r : option (T * Z * Z * bool)) : outcome T :=
+  match r with None => ErrZeroDiv | Some r => finish disp r end.
+(* a float division whose divisor can be zero on admissible input: ZeroDivisionError.  Divisions by literal
+   constants, by fder after the `fder == 0` test, by q1 - q0 after `q1 == q0` failed and by |q| in brent_max after
+   |p| < |0.5 q r| succeeded cannot have a zero divisor and stay plain ndiv. *)
+Definition chkdiv (a b : T) : option T := if neqb b nzero then None else Some (ndiv a b).
 
 (* ------------------------------------------------------------------ newton *)
 Section Newton.
@@ -96,28 +103,32 @@ Definition newton (x0 : T) (maxiter : Z) (disp : bool) : outcome T :=
   else if (maxiter <? 1)%Z then ErrArg
   else finish disp (newton_loop (Z.to_nat maxiter) 0 (nmul none_ x0) 0).
 
-Fixpoint halley_loop (fuel : nat) (itr : Z) (p0 : T) (fc : Z) : T * Z * Z * bool :=
+Fixpoint halley_loop (fuel : nat) (itr : Z) (p0 : T) (fc : Z) : option (T * Z * Z * bool) :=
   match fuel with
-  | O => (p0, fc, itr, false)
+  | O => Some (p0, fc, itr, false)
   | S k =>
     let fval := f p0 in
-    if neqb fval nzero then (p0, fc + 1, itr, true)%Z
+    if neqb fval nzero then Some (p0, fc + 1, itr, true)%Z
     else
       let fder := fp p0 in
-      if neqb fder nzero then (p0, fc + 2, itr + 1, false)%Z
+      if neqb fder nzero then Some (p0, fc + 2, itr + 1, false)%Z
       else
         let ns := ndiv fval fder in
         let fder2 := fp2 p0 in
         (* p0 - newton_step / (1.0 - 0.5 * newton_step * fder2 / fder) *)
-        let p := nsub p0 (ndiv ns (nsub none_ (ndiv (nmul (nmul nhalf ns) fder2) fder))) in
-        if nltb (nabs (nsub p p0)) tol then (p, fc + 2, itr + 1, true)%Z
-        else halley_loop k (itr + 1)%Z p (fc + 2)%Z
+        match chkdiv ns (nsub none_ (ndiv (nmul (nmul nhalf ns) fder2) fder)) with
+        | None => None
+        | Some st =>
+          let p := nsub p0 st in
+          if nltb (nabs (nsub p p0)) tol then Some (p, fc + 2, itr + 1, true)%Z
+          else halley_loop k (itr + 1)%Z p (fc + 2)%Z
+        end
   end.
 
 Definition newton_halley (x0 : T) (maxiter : Z) (disp : bool) : outcome T :=
   if nleb tol nzero then ErrArg
   else if (maxiter <? 1)%Z then ErrArg
-  else finish disp (halley_loop (Z.to_nat maxiter) 0 (nmul none_ x0) 0).
+  else finish_opt disp (halley_loop (Z.to_nat maxiter) 0 (nmul none_ x0) 0).
 
 (* state at loop head: p0 q0 p1 q1; p_last = p1 when the loop is exhausted *)
 Fixpoint secant_loop (fuel : nat) (itr : Z) (p0 q0 p1 q1 : T) (fc : Z) : T * Z * Z * bool :=
@@ -204,38 +215,62 @@ Definition bq_swap (s : bq) : bq :=
 Definition bq_delta (s : bq) (xtol rtol : T) : T := ndiv (nadd xtol (nmul rtol (nabs (xcur s)))) ntwo.
 Definition bq_sbis (s : bq) : T := ndiv (nsub (xblk s) (xcur s)) ntwo.
 
-(* the step selection; returns (spre, scur) *)
-Definition bq_steps (s : bq) (delta sbis : T) : T * T :=
+(* value of stry: a number, np.inf (guarded zero denominator: the short-step test below is then false),
+   or a ZeroDivisionError from one of the unguarded divisions *)
+Inductive tryval : Type := TZeroDiv | TInf | TVal (v : T).
+Definition tv_of (o : option T) : tryval := match o with None => TZeroDiv | Some v => TVal v end.
+
+Definition bq_stry (s : bq) : tryval :=
+  if neqb (xpre s) (xblk s)
+  then tv_of (chkdiv (nmul (nopp (fcur s)) (nsub (xcur s) (xpre s))) (nsub (fcur s) (fpre s)))
+  else
+    match chkdiv (nsub (fpre s) (fcur s)) (nsub (xpre s) (xcur s)) with
+    | None => TZeroDiv
+    | Some dpre =>
+      match chkdiv (nsub (fblk s) (fcur s)) (nsub (xblk s) (xcur s)) with
+      | None => TZeroDiv
+      | Some dblk =>
+        let den := nmul (nmul dblk dpre) (nsub (fblk s) (fpre s)) in
+        if neqb den nzero then TInf
+        else TVal (ndiv (nmul (nopp (fcur s)) (nsub (nmul (fblk s) dblk) (nmul (fpre s) dpre))) den)
+      end
+    end.
+
+(* the step selection; returns (spre, scur); None = ZeroDivisionError *)
+Definition bq_steps (s : bq) (delta sbis : T) : option (T * T) :=
   if nltb delta (nabs (spre s)) && nltb (nabs (fcur s)) (nabs (fpre s)) then
-    let stry :=
-      if neqb (xpre s) (xblk s)
-      then ndiv (nmul (nopp (fcur s)) (nsub (xcur s) (xpre s))) (nsub (fcur s) (fpre s))
-      else
-        let dpre := ndiv (nsub (fpre s) (fcur s)) (nsub (xpre s) (xcur s)) in
-        let dblk := ndiv (nsub (fblk s) (fcur s)) (nsub (xblk s) (xcur s)) in
-        ndiv (nmul (nopp (fcur s)) (nsub (nmul (fblk s) dblk) (nmul (fpre s) dpre)))
-             (nmul (nmul dblk dpre) (nsub (fblk s) (fpre s))) in
-    if nltb (nmul ntwo (nabs stry)) (nmin (nabs (spre s)) (nsub (nmul nthree (nabs sbis)) delta))
-    then (scur s, stry) else (sbis, sbis)
-  else (sbis, sbis).
+    match bq_stry s with
+    | TZeroDiv => None
+    | TInf => Some (sbis, sbis)
+    | TVal stry =>
+      if nltb (nmul ntwo (nabs stry)) (nmin (nabs (spre s)) (nsub (nmul nthree (nabs sbis)) delta))
+      then Some (scur s, stry) else Some (sbis, sbis)
+    end
+  else Some (sbis, sbis).
 
-Definition bq_advance (s : bq) (delta sbis : T) : bq :=
-  let '(sp, sc) := bq_steps s delta sbis in
-  let xc := if nltb delta (nabs sc) then nadd (xcur s) sc
-            else nadd (xcur s) (if nltb nzero sbis then delta else nopp delta) in
-  {| xpre := xcur s; xcur := xc; xblk := xblk s; fpre := fcur s; fcur := f xc; fblk := fblk s;
-     spre := sp; scur := sc |}.
+Definition bq_advance (s : bq) (delta sbis : T) : option bq :=
+  match bq_steps s delta sbis with
+  | None => None
+  | Some (sp, sc) =>
+    let xc := if nltb delta (nabs sc) then nadd (xcur s) sc
+              else nadd (xcur s) (if nltb nzero sbis then delta else nopp delta) in
+    Some {| xpre := xcur s; xcur := xc; xblk := xblk s; fpre := fcur s; fcur := f xc; fblk := fblk s;
+            spre := sp; scur := sc |}
+  end.
 
-Fixpoint brentq_loop (fuel : nat) (itr : Z) (s : bq) (xtol rtol : T) (fc : Z) : T * Z * Z * bool :=
+Fixpoint brentq_loop (fuel : nat) (itr : Z) (s : bq) (xtol rtol : T) (fc : Z) : option (T * Z * Z * bool) :=
   match fuel with
-  | O => (nzero, fc, itr - 1, false)%Z
+  | O => Some (nzero, fc, itr - 1, false)%Z
   | S k =>
     let s2 := bq_swap (bq_rebracket s) in
     let delta := bq_delta s2 xtol rtol in
     let sbis := bq_sbis s2 in
     if neqb (fcur s2) nzero || nltb (nabs sbis) delta
-    then (xcur s2, fc, itr + 1, true)%Z
-    else brentq_loop k (itr + 1)%Z (bq_advance s2 delta sbis) xtol rtol (fc + 1)%Z
+    then Some (xcur s2, fc, itr + 1, true)%Z
+    else match bq_advance s2 delta sbis with
+         | None => None
+         | Some s3 => brentq_loop k (itr + 1)%Z s3 xtol rtol (fc + 1)%Z
+         end
   end.
 
 (* xblk, fblk, spre, scur are unbound in the source until the first re-bracketing (which always
@@ -252,7 +287,7 @@ Definition brentq (a b xtol rtol : T) (maxiter : Z) (disp : bool) : outcome T :=
     | None => ErrSign
     | Some (root, true) => Res root 2 0 true
     | Some (_, false) =>
-      finish disp (brentq_loop (Z.to_nat maxiter) 0
+      finish_opt disp (brentq_loop (Z.to_nat maxiter) 0
         {| xpre := xp; xcur := xc; xblk := nzero; fpre := fp_; fcur := fc_; fblk := nzero;
            spre := nzero; scur := nzero |} xtol rtol 2)
     end.
